@@ -90,6 +90,10 @@ structure WF (d : Doc) : Prop where
   /-- edges convert, join existing spots, are pairwise distinct, and a spot is touched by edges of one
   track id only (tracks are vertex-disjoint) -/
   edgesOk : TaggedOk (attrsMd d) (baseNodes d) (tagged (attrsMd d) d.tracks)
+  /-- no link from a spot to itself (`SPOT_SOURCE_ID = SPOT_TARGET_ID`): TrackMate links spots of
+  different frames.  The converter would accept such a link, graph validation of its output would
+  not (`GeffProps.C16Links.C16_counterexample_self_link`). -/
+  noSelfLink : ∀ x ∈ tagged (attrsMd d) d.tracks, x.1.s ≠ x.1.t
 
 /-- the graph `_build_data` holds before the discard blocks (closed form) -/
 def fullGraph (d : Doc) : Graph := stamped (attrsMd d) (baseNodes d) (tagged (attrsMd d) d.tracks)
@@ -160,8 +164,8 @@ def taggedOkB (md : List Feat) (base : List (Nat × Attrs)) (L : List (Edge × V
   L.all (fun x => L.all (fun y =>
     decide (x.2 = y.2) || (!touches y.1 x.1.s && !touches y.1 x.1.t)))
 
-/-- executable check of `WF` -/
-def wfB (d : Doc) : Bool :=
+/-- executable check of every clause of `WF` except `noSelfLink` -/
+def wfCoreB (d : Doc) : Bool :=
   let md := attrsMd d
   d.spots.all (spotOkB md) && d.spots.all (fun s => s.id.isSome) && nodupB (d.spots.map spotId) &&
   (d.spots.all (fun s => s.roi.isNone) || d.spots.all (fun s => s.roi.isSome)) &&
@@ -170,6 +174,12 @@ def wfB (d : Doc) : Bool :=
     | .ok a => (aget? a "TRACK_ID").isSome
     | .exc _ => false) &&
   taggedOkB md (baseNodes d) (tagged md d.tracks)
+
+/-- executable check of the clause `noSelfLink` -/
+def noSelfLinkB (d : Doc) : Bool := (tagged (attrsMd d) d.tracks).all (fun x => x.1.s != x.1.t)
+
+/-- executable check of `WF` -/
+def wfB (d : Doc) : Bool := wfCoreB d && noSelfLinkB d
 
 /-- executable check of the declarations (`GeffProps.C16.MetaOk`) -/
 def metaOkB (d : Doc) : Bool :=
